@@ -9,6 +9,8 @@ import (
 	"encoding/json"
 	"errors"
 	"fmt"
+	"os"
+	"runtime/debug"
 	"sort"
 	"strings"
 	"sync"
@@ -428,4 +430,54 @@ func nonTermDetail(l []pLog, b int) string {
 		return "full-batch-all-fail"
 	}
 	return "full-batch-cursor-not-advancing"
+}
+
+// ---------------------------------------------------------------- panics of the code under test
+
+// panicMsg renders a recovered panic: the value and the innermost frame that belongs to the
+// repository (not to the harness, the engine packages or the runtime).
+func panicMsg(r any, stack []byte) string {
+	lines := strings.Split(string(stack), "\n")
+	start := 0
+	for i, l := range lines {
+		if strings.HasPrefix(l, "panic(") {
+			start = i
+		}
+	}
+	frame := "unknown frame"
+	for i := start; i+1 < len(lines); i++ {
+		fn := lines[i]
+		if !strings.HasPrefix(fn, "github.com/celestiaorg/celestia-node/") || strings.Contains(fn, "/verifx/") {
+			continue
+		}
+		file := strings.TrimSpace(lines[i+1])
+		if strings.Contains(file, "zz_verif_") || strings.Contains(file, "/verif/") {
+			continue
+		}
+		if j := strings.Index(file, " +0x"); j > 0 {
+			file = file[:j]
+		}
+		if root := os.Getenv("VERIF_REPO"); root != "" {
+			file = strings.TrimPrefix(file, strings.TrimSuffix(root, "/")+"/")
+		}
+		if j := strings.LastIndex(fn, "("); j > 0 {
+			fn = fn[:j]
+		}
+		frame = strings.TrimPrefix(fn, "github.com/celestiaorg/celestia-node/") + " (" + file + ")"
+		break
+	}
+	return fmt.Sprintf("%v, raised at %s", r, frame)
+}
+
+// pGuard runs code under test and converts a panic into a C14 violation: a panic in a cycle
+// means the blocks that were due are not pruned and nothing is recorded as failed; in
+// production the panic of the run() goroutine takes the whole node down.
+func pGuard(phase string, f func()) (err error) {
+	defer func() {
+		if r := recover(); r != nil {
+			err = fmt.Errorf("C14/panic/%s: the pruner panics (%s): %s", phase, phase, panicMsg(r, debug.Stack()))
+		}
+	}()
+	f()
+	return nil
 }
